@@ -582,6 +582,10 @@ def gen_sequence(rng, index, avoid_neg_zero):
                         "negzero": src["negzero"]})
 
     def key_use():
+        if rng.chance(1, 25):
+            # an unhashable key that IS or CONTAINS the receiver map itself (rendering the key for the error message reaches the receiver)
+            x, d = rng.choice([("m", U(90)), ("[m]", U(91)), ("(2, [m])", T(N(2), U(92))), ("(m,)", T(U(93))), ("{1: m}", U(94)), ("(1, (m, 2))", T(N(1), T(U(95), N(2))))])
+            return {"x": x, "d": d, "src": x}
         e = rng.choice(entries)
         if rng.chance(1, 2):
             return {"x": e["var"], "d": e["d"], "src": e["src"]}
